@@ -4,6 +4,7 @@
 package cmd
 
 import (
+	"errors"
 	"os"
 	"path/filepath"
 	"strings"
@@ -148,6 +149,31 @@ func BoundedUpdateCompare(in string) string {
 		}
 		if err := compareRegex("123456", newRegex+"x", got); err == nil {
 			return "compare misses a one-byte difference"
+		}
+	}
+	return ""
+}
+
+// BoundedCompareVerdict (C08, C12): in both output modes equal texts are "unchanged" (nil) and a
+// difference comes back as an error that errors.Is recognises as a ComparisonError - that
+// test is what lets the --all walk go on to the next rule and remember the difference.
+//@ directive[C08,C12] bounded BoundedCompareVerdict quick=3 thorough=4 tokens="a" "b" "\"" "\\"
+
+func BoundedCompareVerdict(in string) string {
+	zerolog.SetGlobalLevel(zerolog.Disabled)
+	saved := rootValues.output
+	defer func() { rootValues.output = saved }()
+	for _, mode := range []outputType{text, gitHub} {
+		rootValues.output = mode
+		if err := compareRegex("123456", in, in); err != nil {
+			return "equal expressions reported as changed in output mode " + string(mode)
+		}
+		err := compareRegex("123456", in+"x", in)
+		if err == nil {
+			return "a one-byte difference is missed in output mode " + string(mode)
+		}
+		if !errors.Is(err, &ComparisonError{}) {
+			return "in output mode " + string(mode) + " a difference is reported as an error the --all walk does not recognise: " + err.Error()
 		}
 	}
 	return ""
